@@ -65,6 +65,22 @@ def _work(idx):
                                             cfg['repo_src'], cfg['verif'])[0]
                     o['random_search'] = {'tried': nat.get('tried'), 'pre_held': nat.get('pre_held'), 'failures': nat.get('failures', [])[:2]}
                     break
+        recs = getattr(e, 'last_recs', None)
+        if r['obligations'] and recs and any(kind == 'list' for kind, _ in recs[0][1].leaves.values()):
+            # contracts over abstract (arbitrary-length) sequences: the solver proves, but rarely finds models of quantified
+            # formulas; the run-time contract on the real code for random lists supplies the failing inputs
+            nat = xcheck.run_native([{'sidecar': c['module'], 'contract': c['name'], 'random': cfg['random_n'], 'seed': cfg['seed'], 'max_fail': 6}],
+                                    cfg['repo_src'], cfg['verif'])[0]
+            fails = [f for f in nat.get('failures', []) if f.get('failed')]
+            errs = [f for f in nat.get('failures', []) if 'error' in f]
+            r['native_samples'] = {'tried': nat.get('tried'), 'pre_held': nat.get('pre_held'), 'failures': len(fails), 'errors': [x['error'][-400:] for x in errs[:1]]}
+            for o in r['obligations']:
+                mine = [f for f in fails if o['id'] in f.get('failed', [])]
+                if mine:
+                    o['status'] = 'failed'
+                    o['random_search'] = {'tried': nat.get('tried'), 'pre_held': nat.get('pre_held'), 'failures': mine[:2]}
+            sts = [o['status'] for o in r['obligations']]
+            r['status'] = 'failed' if 'failed' in sts else ('undecided' if 'undecided' in sts else r['status'])
         if r['status'] in ('out-of-subset', 'undecided') and not r['obligations']:
             # DESIGN 3.5: a function outside the subset (or an undecided contract) gets a bounded concrete search with the run-time contract
             nat = xcheck.run_native([{'sidecar': c['module'], 'contract': c['name'], 'random': cfg['random_n'], 'seed': cfg['seed']}], cfg['repo_src'], cfg['verif'])[0]
